@@ -37,6 +37,9 @@ import (
 	"github.com/veesix-networks/osvbng/pkg/config/ip"
 	"github.com/veesix-networks/osvbng/pkg/config/subscriber"
 	"github.com/veesix-networks/osvbng/pkg/dataplane"
+	"github.com/veesix-networks/osvbng/pkg/dhcp6"
+	"github.com/veesix-networks/osvbng/pkg/provider"
+	"context"
 	"github.com/veesix-networks/osvbng/pkg/events"
 	"github.com/veesix-networks/osvbng/pkg/ifmgr"
 	"github.com/veesix-networks/osvbng/pkg/logger"
@@ -142,6 +145,47 @@ func (s *c03SB) DeletePPPoESessionAsync(sessionID uint16, clientIP net.IP, clien
 	callback(nil)
 }
 
+func (s *c03SB) PPPoESetSessionIPv6Async(swIfIndex uint32, clientIP net.IP, isAdd bool, callback func(error)) {
+	who := "?"
+	for i, x := range s.h.sess {
+		if x != nil && x.SwIfIndex == swIfIndex {
+			who = strconv.Itoa(i)
+		}
+	}
+	s.h.emit(who, map[bool]string{true: "sb6+", false: "sb6-"}[isAdd])
+	callback(nil)
+}
+
+// c03DH6 is a stand-in DHCPv6 server: ADVERTISE for a SOLICIT, REPLY with an IA_NA address for a REQUEST/RENEW.
+// (The gate in front of it is what is checked; address bookkeeping of the real local provider is C02's.)
+type c03DH6 struct{}
+
+func (c03DH6) Info() provider.Info { return provider.Info{Name: "c03dh6"} }
+func (c03DH6) ReleaseLease([]byte) {}
+func (c03DH6) HandlePacket(ctx context.Context, pkt *dhcp6.Packet) (*dhcp6.Packet, error) {
+	if len(pkt.Raw) < 4 {
+		return nil, nil
+	}
+	mt := byte(dhcp6.MsgTypeReply)
+	if dhcp6.MessageType(pkt.Raw[0]) == dhcp6.MsgTypeSolicit {
+		mt = byte(dhcp6.MsgTypeAdvertise)
+	}
+	raw := []byte{mt, pkt.Raw[1], pkt.Raw[2], pkt.Raw[3]}
+	opt := func(code uint16, data []byte) {
+		b := make([]byte, 4)
+		binary.BigEndian.PutUint16(b[0:2], code)
+		binary.BigEndian.PutUint16(b[2:4], uint16(len(data)))
+		raw = append(raw, append(b, data...)...)
+	}
+	opt(1, pkt.DUID)
+	opt(2, []byte{0, 3, 0, 1, 2, 2, 2, 2, 2, 2})
+	ia := []byte{0, 0, 0, 1, 0, 0, 0, 100, 0, 0, 0, 200}
+	addr := append(net.ParseIP("2001:db8:77::9").To16(), 0, 0, 14, 16, 0, 0, 28, 32)
+	ia = append(ia, append([]byte{0, 5, 0, 24}, addr...)...)
+	opt(3, ia)
+	return &dhcp6.Packet{Raw: raw}, nil
+}
+
 type c03Harness struct {
 	c     *Component
 	bus   *c03Bus
@@ -159,7 +203,7 @@ type c03Harness struct {
 }
 
 func c03Service(tok string) bool {
-	if tok == "RA" || tok == "NA" || tok == "lifeA" || tok == "sbadd" {
+	if tok == "RA" || tok == "NA" || tok == "lifeA" || tok == "sbadd" || tok == "ADV6" || tok == "REPLY6" || tok == "sb6+" {
 		return true
 	}
 	return len(tok) >= 2 && (tok[0] == 'I' || tok[0] == 'V') && tok[1] >= '0' && tok[1] <= '9'
@@ -305,6 +349,15 @@ func (h *c03Harness) onEgress(eg *events.EgressEvent) {
 			h.emit(who, "RA")
 		case pkt.Layer(layers.LayerTypeICMPv6NeighborAdvertisement) != nil:
 			h.emit(who, "NA")
+		case len(body) > 48 && body[6] == 17 && binary.BigEndian.Uint16(body[42:44]) == 546:
+			switch dhcp6.MessageType(body[48]) {
+			case dhcp6.MsgTypeAdvertise:
+				h.emit(who, "ADV6")
+			case dhcp6.MsgTypeReply:
+				h.emit(who, "REPLY6")
+			default:
+				h.emit(who, "dhcp6?")
+			}
 		default:
 			h.emit(who, "ip6")
 		}
@@ -381,6 +434,8 @@ func c03NewHarness(poolSize int) *c03Harness {
 		ipv6Index:        make(map[string]*SessionState),
 		raBuckets:        make(map[int][]string),
 		raBucketCount:    16,
+		dhcp6Providers:   map[string]dhcp6.DHCPProvider{"local": c03DH6{}},
+		dhcp6Sem:         make(chan struct{}, 16),
 		registry:         h.reg,
 		nextSessionID:    1,
 	}
@@ -528,6 +583,14 @@ func (h *c03Harness) frame(i int, proto, kind string) (uint16, []byte, bool) {
 			return ppp.ProtoIPv6, c03ICMP6(cli, bng, layers.ICMPv6TypeNeighborSolicitation, body), true
 		case "junk":
 			return ppp.ProtoIPv6, []byte{0x60, 0, 0}, true
+		case "dh_sol", "dh_req":
+			mt := byte(dhcp6.MsgTypeSolicit)
+			if kind == "dh_req" {
+				mt = byte(dhcp6.MsgTypeRequest)
+			}
+			d := []byte{mt, 0, 0, byte(i + 1), 0, 1, 0, 10, 0, 3, 0, 1, 0xaa, 0, 0, 0, 0, byte(i + 1),
+				0, 3, 0, 12, 0, 0, 0, 1, 0, 0, 0, 0, 0, 0, 0, 0}
+			return ppp.ProtoIPv6, c03UDP6(cli, net.ParseIP("ff02::1:2"), 546, 547, d), true
 		}
 	case "unk":
 		switch kind {
@@ -540,6 +603,17 @@ func (h *c03Harness) frame(i int, proto, kind string) (uint16, []byte, bool) {
 		}
 	}
 	return 0, nil, false
+}
+
+func c03UDP6(src, dst net.IP, sport, dport uint16, payload []byte) []byte {
+	ip6 := &layers.IPv6{Version: 6, NextHeader: layers.IPProtocolUDP, HopLimit: 64, SrcIP: src, DstIP: dst}
+	udp := &layers.UDP{SrcPort: layers.UDPPort(sport), DstPort: layers.UDPPort(dport)}
+	udp.SetNetworkLayerForChecksum(ip6)
+	buf := gopacket.NewSerializeBuffer()
+	if err := gopacket.SerializeLayers(buf, gopacket.SerializeOptions{FixLengths: true, ComputeChecksums: true}, ip6, udp, gopacket.Payload(payload)); err != nil {
+		panic(err)
+	}
+	return buf.Bytes()
 }
 
 func c03ICMP6(src, dst net.IP, typ uint8, body []byte) []byte {
@@ -569,6 +643,10 @@ func (h *c03Harness) sendFrame(i int, proto, kind string) {
 		PPP:   &layers.PPP{PPPType: layers.PPPType(pnum), BaseLayer: layers.BaseLayer{Payload: payload}},
 	}
 	_ = h.c.handlePacket(pkt) // errors (short frame etc.) are only logged by the real receive loop
+	// DHCPv6 over PPP is answered by a bounded worker off the session lock: wait for it
+	for k := 0; k < 2000 && len(h.c.dhcp6Sem) > 0; k++ {
+		time.Sleep(50 * time.Microsecond)
+	}
 }
 
 func (h *c03Harness) aaa(k int, kind string) {
